@@ -321,21 +321,80 @@ Definition sim_apply (p : params) (ty : stype) (ts : list Qc) (rs : list (V3 Qc)
   | None => None
   end.
 
-(** Squared coefficient of the k-th noise sample [randn[k, axis]] in output row k:
-    (noise * dt**-0.5)^2 for rate, (noise * dt**0.5)^2 for increment sensors. *)
-Definition noise_coef_sq (p : params) (ty : stype) (dt : Qc) (axis : nat) : Qc :=
-  match ty with
-  | Rate => sq (get3 axis (p_noise p)) / dt
-  | Increment => sq (get3 axis (p_noise p)) * dt
+(** ** The complete [apply], with the two random streams given as recorded arrays.
+
+    [W] = first  [rng.randn(*readings.shape)]  (integrated into the bias),
+    [N] = second [rng.randn(*readings.shape)]  (additive white noise).
+    [dt ** 0.5] needs a square root: [qsqrt] returns the exact rational root, or [None] when
+    there is none (then [sim_full] is undefined: the model covers exactly the time stamps on
+    which the implementation's arithmetic is exact). *)
+Definition mul3 (u v : V3 Qc) : V3 Qc := mk3 (c0 u * c0 v) (c1 u * c1 v) (c2 u * c2 v).
+
+Definition qsqrt (x : Qc) : option Qc :=
+  let n := Qnum (this x) in
+  let d := Zpos (Qden (this x)) in
+  let rn := Z.sqrt n in
+  let rd := Z.sqrt d in
+  if ((0 <=? n) && (rn * rn =? n) && (rd * rd =? d))%Z then Some (Q2Qc (rn # Z.to_pos rd)) else None.
+
+Fixpoint opt_all {A} (l : list (option A)) : option (list A) :=
+  match l with
+  | [] => Some []
+  | Some x :: r => match opt_all r with Some r' => Some (x :: r') | None => None end
+  | None :: _ => None
   end.
-(** Squared coefficient of the j-th walk sample [randn[j, axis]] in bias[k, axis] for every
-    k >= j (cumsum): (bias_walk * sqrt(dt_raw[j]))^2; it is 0 for k < j. *)
-Definition walk_coef_sq (p : params) (dtraw_j : Qc) (axis : nat) : Qc :=
-  sq (get3 axis (p_walk p)) * dtraw_j.
-(** how bias[k] enters output row k: [+ bias] (rate) or [+ bias * dt] (increment);
-    squared factor applied to [walk_coef_sq]. *)
-Definition bias_gain_sq (ty : stype) (dt : Qc) : Qc :=
-  match ty with Rate => 1 | Increment => sq dt end.
+
+(** np.cumsum(., axis=0) *)
+Fixpoint cumsum3 (acc : V3 Qc) (l : list (V3 Qc)) : list (V3 Qc) :=
+  match l with
+  | [] => []
+  | x :: r => let a := add3 acc x in a :: cumsum3 a r
+  end.
+
+(** bias = self.bias + self.bias_walk * np.cumsum(randn * dt ** 0.5, axis=0), dt = [dt_raw] *)
+Definition walk_steps (sraw : list Qc) (W : list (V3 Qc)) : list (V3 Qc) :=
+  map (fun ws => scale3 (fst ws) (snd ws)) (combine W sraw).
+Definition bias_series (p : params) (sraw : list Qc) (W : list (V3 Qc)) : list (V3 Qc) :=
+  map (fun c => add3 (p_b p) (mul3 (p_walk p) c)) (cumsum3 zero3 (walk_steps sraw W)).
+
+(** coefficient of the noise sample: [dt**-0.5] (rate) or [dt**0.5] (increment), [s = dt**0.5] *)
+Definition noise_coef (ty : stype) (s : Qc) : Qc :=
+  match ty with Rate => / s | Increment => s end.
+(** how [bias[k]] enters output row k: [+ bias] (rate) or [+ bias * dt] (increment) *)
+Definition bias_term (ty : stype) (dt : Qc) (bias : V3 Qc) : V3 Qc :=
+  match ty with Rate => bias | Increment => scale3 bias dt end.
+
+Definition sim_full_row (p : params) (ty : stype) (dt s : Qc) (r bias n : V3 Qc) : V3 Qc :=
+  add3 (add3 (mv3 (p_T p) r) (bias_term ty dt bias))
+       (mul3 (scale3 (p_noise p) (noise_coef ty s)) n).
+
+Fixpoint sim_rows (p : params) (ty : stype) (dts sus : list Qc) (rs bs ns : list (V3 Qc))
+  : list (V3 Qc) :=
+  match dts, sus, rs, bs, ns with
+  | dt :: dts', s :: sus', r :: rs', b :: bs', n :: ns' =>
+      sim_full_row p ty dt s r b n :: sim_rows p ty dts' sus' rs' bs' ns'
+  | _, _, _, _, _ => []
+  end.
+
+(** square roots of [dt_raw] and of [dt_used] *)
+Definition sqrt_raw (ts : list Qc) : option (list Qc) := opt_all (map qsqrt (dt_raw ts)).
+Definition first_from_second (l : list Qc) : list Qc :=
+  match l with _ :: d1 :: rest => d1 :: d1 :: rest | _ => l end.
+
+Definition sim_full (p : params) (ty : stype) (ts : list Qc) (rs W N : list (V3 Qc))
+  : option (list (V3 Qc)) :=
+  match dt_used ts, sqrt_raw ts with
+  | Some dts, Some sraw =>
+      Some (sim_rows p ty dts (first_from_second sraw) rs (bias_series p sraw W) N)
+  | _, _ => None
+  end.
+
+(** Parameters.from_EstimationModel: transform = eye(3) + scale_misal_sd * randn(3, 3),
+    bias = bias_sd * randn(3); noise and bias_walk are copied. *)
+Definition madd (A B : M3) : M3 := mk3 (add3 (c0 A) (c0 B)) (add3 (c1 A) (c1 B)) (add3 (c2 A) (c2 B)).
+Definition mmul_el (A B : M3) : M3 := mk3 (mul3 (c0 A) (c0 B)) (mul3 (c1 A) (c1 B)) (mul3 (c2 A) (c2 B)).
+Definition from_model (bias_sd noise bias_walk : V3 Qc) (sm_sd : M3) (zT : M3) (zb : V3 Qc) : params :=
+  mk_params (madd ident3 (mmul_el sm_sd zT)) (mul3 bias_sd zb) noise bias_walk.
 
 (** data_frame column names, in creation order *)
 Definition pairs9 : list (nat * nat) := list_prod (seq 0 3) (seq 0 3).
@@ -346,12 +405,19 @@ Definition col_sm_en (p : params) (oi : nat * nat) : bool :=
 Definition columns (p : params) : list string :=
   map bias_name (filter (col_bias_en p) (seq 0 3))
   ++ map (fun oi => sm_name (fst oi) (snd oi)) (filter (col_sm_en p) pairs9).
-(** data_frame values with the walk stream set to zero (bias column = bias,
-    sm column = actual - nominal) *)
-Definition df_row (p : params) : list Qc :=
-  map (fun a => get3 a (p_b p)) (filter (col_bias_en p) (seq 0 3))
+(** data_frame row for a given value of the (walking) bias: bias column = bias[k, axis],
+    sm column = actual - nominal *)
+Definition df_row_at (p : params) (bias : V3 Qc) : list Qc :=
+  map (fun a => get3 a bias) (filter (col_bias_en p) (seq 0 3))
   ++ map (fun oi => get33 (fst oi) (snd oi) (p_T p) - delta (fst oi) (snd oi))
          (filter (col_sm_en p) pairs9).
+(** ... with the walk stream set to zero *)
+Definition df_row (p : params) : list Qc := df_row_at p (p_b p).
+Definition sim_df (p : params) (ts : list Qc) (W : list (V3 Qc)) : option (list (list Qc)) :=
+  match dt_used ts, sqrt_raw ts with
+  | Some _, Some sraw => Some (map (df_row_at p) (bias_series p sraw W))
+  | _, _ => None
+  end.
 
 (* ------------------------------------------------------------------ *)
 (** * Specification vocabulary (used in the theorem statements only) *)
